@@ -3,6 +3,7 @@ package main
 import (
 	"fmt"
 	"go/ast"
+	"go/token"
 	"strings"
 )
 
@@ -68,7 +69,7 @@ func boolLit(b bool) string {
 func genUpdates() (string, error) {
 	s := header("Updates", "pkg/config/v2/constants.go", "pkg/configmanager/parser.go", "pkg/router/routers_manager.go",
 		"pkg/upstream/cluster/cluster_manager.go", "pkg/configmanager/effectiveconfig.go", "istio/istio1106/xds/conv/convert_cluster.go",
-		"istio/istio1106/xds/conv/update.go")
+		"istio/istio1106/xds/conv/update.go", "pkg/server/handler.go")
 
 	// ---- constants
 	minW, err := intConst("pkg/config/v2", "MinHostWeight")
@@ -246,6 +247,74 @@ func genUpdates() (string, error) {
 	s += fmt.Sprintf("def endpointUpdatesAfterLocalityLoop : Nat := %d\n", after)
 	s += "/-- the locality loop accumulates the converted hosts (`append`). -/\n"
 	s += fmt.Sprintf("def localityLoopAccumulates : Bool := %s\n", boolLit(appends >= 1))
+	// ---- listeners (pkg/server/handler.go)
+	hf, err := parse("pkg/server/handler.go")
+	if err != nil {
+		return "", err
+	}
+	aul := findFunc(hf, "connHandler", "AddOrUpdateListener")
+	rml := findFunc(hf, "connHandler", "RemoveListeners")
+	if aul == nil || rml == nil {
+		return "", fmt.Errorf("connHandler.AddOrUpdateListener / RemoveListeners not found")
+	}
+	s += fmt.Sprintf("\n/-- `AddOrUpdateListener` records the listener's config (`configmanager.SetListenerConfig`) on its common path. -/\ndef addOrUpdateListener_recordsListenerConfig : Bool := %s\n",
+		boolLit(topLevelCalls(aul.Body, "configmanager.SetListenerConfig") >= 1))
+	s += fmt.Sprintf("/-- `RemoveListeners` removes the listener's config from the store (`configmanager.SetRemoveListenerConfig`). -/\ndef removeListeners_removesListenerConfig : Bool := %s\n",
+		boolLit(countCalls(rml.Body, "configmanager.SetRemoveListenerConfig") >= 1))
+	// the update branch writes the new idle timeout into the listener's stored config as well as into the live listener
+	idleCfg, idleLive := 0, 0
+	ast.Inspect(aul.Body, func(n ast.Node) bool {
+		if as, ok := n.(*ast.AssignStmt); ok && len(as.Lhs) == 1 {
+			switch exprKey(as.Lhs[0]) {
+			case "rawConfig.ConnectionIdleTimeout":
+				idleCfg++
+			case "al.idleTimeout":
+				idleLive++
+			}
+		}
+		return true
+	})
+	s += fmt.Sprintf("/-- the update branch assigns the new idle timeout to the live listener (%d) and to its config (%d). -/\ndef updateListener_idleLive : Bool := %s\ndef updateListener_idleConfig : Bool := %s\n",
+		idleLive, idleCfg, boolLit(idleLive >= 1), boolLit(idleCfg >= 1))
+	// validation before application: no error return of the update branch lies after the first filter-factory registration
+	firstReg := token.NoPos
+	ast.Inspect(aul.Body, func(n ast.Node) bool {
+		if ce, ok := n.(*ast.CallExpr); ok {
+			k := exprKey(ce.Fun)
+			if strings.HasSuffix(k, "AddOrUpdateStreamFilterConfig") || strings.HasSuffix(k, "AddOrUpdateListenerFilterFactories") ||
+				strings.HasSuffix(k, "AddOrUpdateNetworkFilterFactories") {
+				if firstReg == token.NoPos || ce.Pos() < firstReg {
+					firstReg = ce.Pos()
+				}
+			}
+		}
+		return true
+	})
+	if firstReg == token.NoPos {
+		return "", fmt.Errorf("AddOrUpdateListener: filter factory registrations not found")
+	}
+	lateReturns := 0
+	ast.Inspect(aul.Body, func(n ast.Node) bool {
+		is, ok := n.(*ast.IfStmt)
+		if !ok {
+			return true
+		}
+		var cond string
+		if be, ok := is.Cond.(*ast.BinaryExpr); ok {
+			cond = exprKey(be.X) + be.Op.String() + exprKey(be.Y)
+		}
+		if cond != "al!=nil" {
+			return true
+		}
+		ast.Inspect(is.Body, func(m ast.Node) bool {
+			if r, ok := m.(*ast.ReturnStmt); ok && r.Pos() > firstReg {
+				lateReturns++
+			}
+			return true
+		})
+		return false
+	})
+	s += fmt.Sprintf("/-- number of `return` statements of the update branch (`if al != nil`) that lie AFTER the first filter-factory registration:\n0 = a rejected update is rejected before anything is changed. -/\ndef updateListener_lateErrorReturns : Nat := %d\n", lateReturns)
 	s += footer("Updates")
 	return s, nil
 }
